@@ -518,21 +518,106 @@ Section NetProofs.
         exists l2. rewrite exec_run. auto.
       + intros Hq. eapply (maximal_unique (nstate L) nst net_diamond); eauto.
   Qed.
+  Lemma exec_inv : forall ch st st', inv1 st -> inv2 st -> exe st ch = Some st' -> inv1 st' /\ inv2 st'.
+  Proof.
+    induction ch as [|i r IH]; intros st st' I1 I2 H; simpl in H.
+    - inversion H; subst. auto.
+    - destruct (nst st i) as [st1|] eqn:Hs; [|discriminate].
+      destruct (inv_step _ _ _ I1 I2 Hs) as [J1 J2]. eapply IH; eauto.
+  Qed.
+
+  (* in every reachable state (any interleaving): an output history that contains a FAILED termination token belongs
+     to a step that terminated FAILED *)
+  Theorem failed_token_failed_step : forall ch st x l,
+    exe init ch = Some st -> In x st -> In l (souts x) -> In (Term FAILED) l -> sterm x = Some FAILED.
+  Proof.
+    intros ch st x l H Hx Hl Hin. destruct inv_init as [I1 I2].
+    destruct (exec_inv ch _ _ I1 I2 H) as [[Len J1] _].
+    apply In_nth_error in Hx. destruct Hx as [i Hi].
+    destruct (nth_error specs i) as [sp|] eqn:Hsp;
+      [|apply nth_error_None in Hsp; apply nth_error_Some_lt in Hi; lia].
+    destruct (J1 _ _ _ Hsp Hi) as [_ Ho]. specialize (Ho l Hl). unfold out_ok in Ho.
+    destruct (sterm x) as [s|].
+    - destruct Ho as [d [-> Hd]]. apply in_app_or in Hin. destruct Hin as [Hin|[Hin|[]]].
+      + exfalso. unfold term_free in Hd. assert (existsb is_term d = true) by (apply existsb_exists; exists (Term FAILED); auto).
+        congruence.
+      + inversion Hin. reflexivity.
+    - exfalso. unfold term_free in Ho. assert (existsb is_term l = true) by (apply existsb_exists; exists (Term FAILED); auto).
+      congruence.
+  Qed.
 End NetProofs.
 
 (* ================================================================== executor closing logic *)
-Lemma x_close_all x : unterminated (x_close x) = 0 \/ closed x = true.
-Proof. unfold x_close. destruct (closed x); auto. Qed.
+Lemma x_close_map x : closed x = false ->
+  x_close x = mkX true (map (fun s => if xs_term s then s else mkXS true CANCELLED) (xsteps x)).
+Proof. unfold x_close. intros ->. reflexivity. Qed.
 
-Lemma x_run_tail_terminates_all : forall failed_out bad u,
-  unterminated (snd (x_run_tail x_cancel failed_out bad (mkX false u))) = 0 /\
-  closed (snd (x_run_tail x_cancel failed_out bad (mkX false u))) = true.
-Proof. intros [] [] u; split; reflexivity. Qed.
+Lemma x_first (x : xstate) (fo : bool) : closed x = false -> (if fo then x_cancel x else x_close x) = x_close x.
+Proof. intros H. destruct fo; [unfold x_cancel; rewrite H|]; reflexivity. Qed.
 
-Lemma x_run_tail_raises : forall failed_out bad x,
-  fst (x_run_tail x_cancel failed_out bad x) = bad.
-Proof. intros failed_out [] x; unfold x_run_tail; reflexivity. Qed.
+Lemma closed_terminated steps :
+  forallb xs_term (map (fun s => if xs_term s then s else mkXS true CANCELLED) steps) = true.
+Proof. induction steps as [|s r IH]; simpl; auto. destruct (xs_term s) eqn:E; simpl; [rewrite E|]; exact IH. Qed.
 
-Lemma x_prefix_leaves : forall u,
-  unterminated (snd (x_run_tail x_cancel_prefix true true (mkX false u))) = u.
-Proof. reflexivity. Qed.
+(* whichever way the output loop ended, when run() returns or raises every step is terminated *)
+Theorem x_run_tail_terminates_all : forall fo x, closed x = false ->
+  forallb xs_term (xsteps (snd (x_run_tail x_cancel fo x))) = true /\ closed (snd (x_run_tail x_cancel fo x)) = true.
+Proof.
+  intros fo x H. unfold x_run_tail. rewrite (x_first x fo H), (x_close_map x H). simpl.
+  destruct (existsb xs_bad _); simpl; split; try reflexivity; apply closed_terminated.
+Qed.
+
+(* run() raises exactly when some step is FAILED/CANCELLED or was still running when the loop ended (close() then
+   CANCELs it): the raise is read off the state, it is not an input *)
+Theorem x_run_tail_raises_iff : forall fo x, closed x = false ->
+  (fst (x_run_tail x_cancel fo x) = true <->
+   exists s, In s (xsteps x) /\ (xs_bad s = true \/ xs_term s = false)).
+Proof.
+  intros fo x H. unfold x_run_tail. rewrite (x_first x fo H), (x_close_map x H). simpl.
+  set (g := fun s => if xs_term s then s else mkXS true CANCELLED).
+  assert (E : existsb xs_bad (map g (xsteps x)) = true <-> exists s, In s (xsteps x) /\ (xs_bad s = true \/ xs_term s = false)).
+  { rewrite existsb_exists. split.
+    - intros [y [Hy Hb]]. apply in_map_iff in Hy. destruct Hy as [s [<- Hs]]. exists s. split; auto.
+      unfold g in Hb. destruct (xs_term s); auto.
+    - intros [s [Hs Hc]]. exists (g s). split; [apply in_map; exact Hs|]. unfold g.
+      destruct (xs_term s) eqn:T; [destruct Hc as [Hc|Hc]; [exact Hc|discriminate]|reflexivity]. }
+  destruct (existsb xs_bad (map g (xsteps x))) eqn:B; simpl.
+  - split; [intros _; apply E; reflexivity|reflexivity].
+  - split; [discriminate|]. intros Hex. apply E in Hex. discriminate.
+Qed.
+
+(* the pre-fix _cancel: the steps are left exactly as they were *)
+Theorem x_prefix_leaves : forall x, closed x = false -> existsb xs_bad (xsteps x) = true ->
+  x_run_tail x_cancel_prefix true x = (true, mkX true (xsteps x)).
+Proof. intros x H B. unfold x_run_tail, x_cancel_prefix. rewrite H. simpl. rewrite B. reflexivity. Qed.
+
+(* network + executor: a FAILED termination token anywhere in a reachable network state makes run() raise, and every
+   step is terminated when it does *)
+Definition net_xstate {L} (st : nstate L) : xstate := mkX false (map (fun x => xs_of_sterm (sterm x)) st).
+
+Theorem failure_raises_and_terminates :
+  forall (L spec : Type) (s_ins : spec -> list src) (s_nout : spec -> nat)
+         (fire : spec -> L -> list (list tok) -> list tok -> L * list (list tok) * option status)
+         (init_loc : spec -> L) (win : list (list tok)) (specs : list spec),
+    fire_contract L spec s_nout fire ->
+    forall ch st x l fo,
+      exec L spec s_ins fire win specs (init_state L spec s_nout init_loc specs) ch = Some st ->
+      In x st -> In l (souts x) -> In (Term FAILED) l ->
+      fst (x_run_tail x_cancel fo (net_xstate st)) = true /\
+      forallb xs_term (xsteps (snd (x_run_tail x_cancel fo (net_xstate st)))) = true.
+Proof.
+  intros L spec s_ins s_nout fire init_loc win specs HC ch st x l fo H Hx Hl Hin.
+  pose proof (failed_token_failed_step L spec s_ins s_nout fire init_loc win specs HC ch st x l H Hx Hl Hin) as Hf.
+  split; [|apply x_run_tail_terminates_all; reflexivity].
+  apply x_run_tail_raises_iff; [reflexivity|]. exists (xs_of_sterm (sterm x)). split.
+  - simpl. apply in_map_iff. exists x. auto.
+  - left. rewrite Hf. reflexivity.
+Qed.
+
+(* the known finding: on the NORMAL path (last output port terminated) a step that is still running is CANCELLED by
+   close() and run() raises, even when no step had failed *)
+Theorem x_straggler_raises : forall x, closed x = false ->
+  (exists s, In s (xsteps x) /\ xs_term s = false) -> fst (x_run_tail x_cancel false x) = true.
+Proof.
+  intros x H [s [Hs Ht]]. apply x_run_tail_raises_iff; [exact H|]. exists s. auto.
+Qed.
